@@ -97,4 +97,6 @@ func genericPack(c *Ctx) {
 	ruleErrPathUnseen(c, "G-ERR-PATH-UNSEEN", pkgs)
 	ruleComparatorBoth(c, "G-COMPARATOR-BOTH", pkgs)
 	ruleCtorParam(c, "G-CTOR-KEEPS-PARAM", pkgs)
+	ruleWithFlagNoop(c, "G-WITH-FLAG-NOOP", pkgs, 0)
+	ruleTwinParam(c, "G-TWIN-PARAM-UNUSED", pkgs)
 }
